@@ -26,6 +26,8 @@ impl OperationControl for Eol {
         matcher: &ReMatcher,
         position: usize,
     ) -> Box<dyn Iterator<Item = usize>> {
+        #[cfg(regexml_verif)]
+        crate::verif::tick();
         let search = &matcher.search;
 
         if matcher.program.flags.is_multi_line() {
